@@ -80,6 +80,8 @@ def sem_forbidden(ctx, p, gens):
     for col, c in (('WHITE', 0), ('BLACK', 1)):
         f = gens[('forbidden_squares', col)]
         nm = Norm(f, env={'side': c, '__targs__': True})
+        from rules.norm import SYNONYMS
+        nm.synonyms = SYNONYMS
         res = [n for n in f.all_nodes() if n['k'] == 'ReturnStmt']
         if len(res) != 1:
             raise AnalysisBroken('C01.M8.forbidden: forbidden_squares has %d returns' % len(res))
@@ -98,6 +100,10 @@ def sem_forbidden(ctx, p, gens):
                 if loops:
                     cnd = loops[0]['ch'][2]
                     bound = nm.s(kids(strip_casts(cnd))[1]) if cnd is not None and len(kids(strip_casts(cnd))) == 2 else '?'
+                    from rules.common import for_init_const
+                    op_ = strip_casts(cnd).get('op') if cnd is not None else '?'
+                    if op_ != '<' or for_init_const(loops[0]) != 0:
+                        bound = 'from %s while i %s %s' % (for_init_const(loops[0]), op_, bound)
                 found.append('%s @ %s' % (term, bound))
             elif n['k'] == 'VarDecl' and n.get('id') == vid and kids(n) and nm.s(kids(n)[0]) != '0':
                 found.append('%s @ ' % nm.s(kids(n)[0]))
@@ -113,8 +119,8 @@ def sem_forbidden(ctx, p, gens):
                 'slider_attack<QUEEN>(pos.piece_position(%d,i),%s) @ pos.number_of_pieces(%d)' % (base + 5, bl, base + 5),
                 'KING_MASK[pos.piece_position(%d,0)] @ ' % (base + 6)]
         shapes = [r'\(shift<\w+>\(pos\.pieces\(\d,\d\)\)\|shift<\w+>\(pos\.pieces\(\d,\d\)\)\) @ ',
-                  r'KNIGHT_MASK\[pos\.piece_position\(\d+,i\)\] @ pos\.number_of_pieces\(\d+\)',
-                  r'slider_attack<\w+>\(pos\.piece_position\(\d+,i\),\(pos\.pieces\(\)\^square_bb\(pos\.piece_position\(\d+,0\)\)\)\) @ pos\.number_of_pieces\(\d+\)',
+                  r'KNIGHT_MASK\[pos\.piece_position\(\d+,i\)\] @ (from \S+ while i \S+ )?pos\.number_of_pieces\(\d+\)',
+                  r'slider_attack<\w+>\(pos\.piece_position\(\d+,i\),\(pos\.pieces\(\)\^square_bb\(pos\.piece_position\(\d+,0\)\)\)\) @ (from \S+ while i \S+ )?pos\.number_of_pieces\(\d+\)',
                   r'slider_attack<\w+>\(pos\.piece_position\(\d+,i\),pos\.pieces\(\)\) @ pos\.number_of_pieces\(\d+\)',
                   r'KING_MASK\[pos\.piece_position\(\d+,0\)\] @ ']
         _cmp(ctx, 'C01.M8.forbidden', 'forbidden_squares<%s>' % col, found, want, shapes, f.loc(),
@@ -394,6 +400,7 @@ def sem_pinned_pawn(ctx, p, gens, emissions):
 def check(ctx, p, gens, emissions, loop_source, dirs):
     sem_pawn(ctx, p, gens, emissions, loop_source, dirs)
     sem_forbidden(ctx, p, gens)
+    sem_checkers(ctx, p, gens)
     sem_piece_moves(ctx, p, emissions, loop_source)
     sem_ep_attacker(ctx, p, gens)
     sem_pin_in_ray(ctx, p)
@@ -450,52 +457,29 @@ def sem_legal_driver(ctx, p, gens):
                'the moves of pinned pieces are generated for every entry of the pin list: from the start handed to generate_pins up '
                'to the end it returned (%s)' % why, site=f.loc(calls[0]) if calls else f.loc())
         # pinned pieces: knights never move, pawns go to the pinned-pawn generator, sliders only along a ray they can use
+        from rules.cases import effects_under
         g = gens[('generate_pinned_piece_moves', col)]
         pkk = p.enum('engine::PieceKind')
         bad = None
         for kind in ('PAWN', 'KNIGHT', 'BISHOP', 'ROOK', 'QUEEN'):
             for allowed in (True, False):
-                ng = Norm(g, env={'side': c, '__targs__': True}, keep=('piece', 'ray', 'from'))
                 val = {'piece': pkk[kind], 'pin_piece_kind(pin)': pkk[kind], 'allowed_ray(piece,ray)': 1 if allowed else 0,
                        'allowed_ray(pin_piece_kind(pin),pin_ray(pin))': 1 if allowed else 0,
                        'allowed_ray(%d,ray)' % pkk[kind]: 1 if allowed else 0, 'allowed_ray(%d,pin_ray(pin))' % pkk[kind]: 1 if allowed else 0}
-                ng.val = val
+                eff = effects_under(g, kids(g.body), val, env={'side': c, '__targs__': True}, keep=('piece', 'ray', 'from', 'bb', 'list'), loops='mark')
                 outcome = []
-
-                def run(stmts):
-                    for st in stmts:
-                        if st.get('mac') in ('assert', 'ASSERT'):
-                            continue
-                        k = st['k']
-                        if k == 'CompoundStmt':
-                            if run(kids(st)):
-                                return True
-                        elif k == 'IfStmt':
-                            ks_ = kids(st)
-                            tv = cond_value(ng, ks_[0], val)
-                            br = ks_[1] if tv else (ks_[2] if len(ks_) > 2 else None)
-                            if br is not None and run([br]):
-                                return True
-                        elif k == 'ReturnStmt':
-                            v = strip_casts(kids(st)[0]) if kids(st) else None
-                            while v is not None and v['k'] in ('ExprWithCleanups',):
-                                v = strip_casts(kids(v)[0])
-                            if v is not None and (v.get('callee') or {}).get('n') == 'engine::generate_pinned_pawn_moves':
-                                outcome.append('pawn-generator<%s>(%s)' % (short(v['callee'].get('targs', '')), ','.join(ng.s(a) for a in kids(v)[1:4])))
-                            return True
-                        elif k in ('WhileStmt', 'ForStmt', 'DoStmt'):
-                            if st.get('mac'):
-                                pass
-                            outcome.append('scan')
-                        elif k == 'DeclStmt':
-                            for d in kids(st):
-                                if d['k'] == 'VarDecl' and kids(d) and any((x.get('callee') or {}).get('n') == 'engine::attack_in_line' for x in walk(d)):
-                                    outcome.append('line:' + ng.s(kids(d)[0]))
-                    return False
-                try:
-                    run(kids(g.body))
-                except Unknown as u:
-                    raise AnalysisBroken('C01.M8.pinned-dispatch: generate_pinned_piece_moves decides on `%s`' % u)
+                for e in eff:
+                    m_ = re.search(r'generate_pinned_pawn_moves<(\w+)>\(([^)]*)\)', e)
+                    if m_:
+                        outcome.append('pawn-generator<%s>(%s)' % (m_.group(1), ','.join(m_.group(2).split(',')[:3])))
+                    elif e.startswith('loop'):
+                        outcome.append('scan')
+                    elif e.startswith('return ') or e.startswith('(list='):
+                        continue
+                    else:
+                        outcome.append(e)
+                bbd = [n for n in g.all_nodes() if n['k'] == 'VarDecl' and n.get('name') == 'bb' and kids(n)]
+                line = Norm(g, inline=False).s(kids(bbd[0])[0]) if len(bbd) == 1 else None
                 if kind == 'KNIGHT':
                     want = []
                 elif kind == 'PAWN':
@@ -503,10 +487,68 @@ def sem_legal_driver(ctx, p, gens):
                 elif not allowed:
                     want = []
                 else:
-                    want = ['line:' + band('attack_in_line(from,ray,pos.pieces())', 'target'), 'scan']
+                    want = ['scan']
+                    if line != band('attack_in_line(from,ray,pos.pieces())', 'target') and bad is None:
+                        bad = 'a pinned slider scans %s' % line
                 if outcome != want and bad is None:
                     bad = 'pinned %s on a ray it %s use: %s, expected %s' % (kind, 'can' if allowed else 'cannot', outcome, want)
         ctx.ob('C01.M8.pinned-dispatch', 'generate_pinned_piece_moves<%s>' % col, bad is None,
                'a pinned knight has no move, a pinned pawn is handed to the pinned-pawn generator of the same colour, a pinned slider '
                'moves along the pin line within the targets only when it can move on that line%s' % ('' if bad is None else ' — ' + bad),
                site=g.loc())
+
+
+def sem_checkers(ctx, p, gens):
+    from rules.norm import SYNONYMS
+    for col, c in (('WHITE', 0), ('BLACK', 1)):
+        f = gens[('checkers', col)]
+        nm = Norm(f, env={'side': c, '__targs__': True})
+        nm.synonyms = SYNONYMS
+        rets = [n for n in f.all_nodes() if n['k'] == 'ReturnStmt' and kids(n)]
+        if len(rets) != 1:
+            raise AnalysisBroken('C01.M8.checkers: checkers<%s> has %d returns' % (col, len(rets)))
+        rv = strip_casts(kids(rets[0])[0])
+        found = []
+        vid = (rv.get('ref') or {}).get('id') if (rv.get('ref') or {}).get('k') == 'Local' else None
+        if vid is not None:
+            for n in f.all_nodes():
+                if n['k'] == 'CompoundAssignOperator' and strip_casts(kids(n)[0]).get('ref', {}).get('id') == vid:
+                    if n.get('op') != '|=':
+                        raise AnalysisBroken('C01.M8.checkers: the set of checkers is updated with %s' % n.get('op'))
+                    found.append(nm.s(kids(n)[1]))
+                elif n['k'] == 'VarDecl' and n.get('id') == vid and kids(n) and nm.s(kids(n)[0]) != '0':
+                    found.append(nm.s(kids(n)[0]))
+        else:
+            found = [nm.s(rv)]
+        # a union written as one expression: split its top-level `|`
+        flat = []
+        for t in found:
+            if t.startswith('(') and t.endswith(')'):
+                depth, cur, parts = 0, '', []
+                for ch in t[1:-1]:
+                    if ch == '(':
+                        depth += 1
+                    if ch == ')':
+                        depth -= 1
+                    if ch == '|' and depth == 0:
+                        parts.append(cur)
+                        cur = ''
+                    else:
+                        cur += ch
+                parts.append(cur)
+                if len(parts) > 1 and all(p_.startswith('(') for p_ in parts):
+                    flat.extend(parts)
+                    continue
+            flat.append(t)
+        opp = 1 - c
+        ksq = 'position.piece_position(%d,0)' % (6 * c + 6)
+        UL, UR = ('NORTHWEST', 'NORTHEAST') if c == 0 else ('SOUTHEAST', 'SOUTHWEST')
+        P = lambda k_: 'position.pieces(%d,%d)' % (opp, k_)
+        want = [band(bor('shift<%s>(square_bb(%s))' % (UL, ksq), 'shift<%s>(square_bb(%s))' % (UR, ksq)), P(1)),
+                band('KNIGHT_MASK[%s]' % ksq, P(2)),
+                band(bor(P(3), P(5)), 'slider_attack<BISHOP>(%s,position.pieces())' % ksq),
+                band(bor(P(4), P(5)), 'slider_attack<ROOK>(%s,position.pieces())' % ksq)]
+        shapes = [r'(?=.*(KNIGHT_MASK\[|slider_attack<\w+>\(|shift<\w+>\())(?=.*position\.pieces\(\d,\d\))\(.*\)']
+        _cmp(ctx, 'C01.M8.checkers', 'checkers<%s>' % col, flat, want, shapes, f.loc(),
+             'the checking pieces are the enemy pawns, knights, bishops/queens and rooks/queens that attack the mover\'s king on the '
+             'real occupancy')
